@@ -75,7 +75,7 @@ macro_rules
     | (cases $h:ident; done)
     | (cases $h:ident; loop_prep <;>
        exact (LoopOk.weaken $lem (Nat.zero_le _)).lift
-         (by first | exact Nat.le_refl _ | exact le_mallocCost _ _ | cost_omega)
+         (by first | exact Nat.le_refl _ | exact le_mallocCost _ _ | exact Nat.le_add_right _ _ | cost_omega)
          (fun m' hm => by simp only [$op:ident, hm, *])
          (fun m' hm => by simp only [$op:ident, hm, *])))
 
@@ -600,5 +600,311 @@ theorem opSubtract_budgetErr (cfg : Cfg) : OpBudgetErr (opSubtract cfg) := by
         simp only [hg] at h
         simp only [subGeneric_mono hg ok_ne_ce hle]
         exact h
+
+/-! ### `op_div`, `op_divmod`, `op_mod` -/
+
+theorem divPrologue_ok {intA : Val → String → Except Err (Int × Nat)} {name errName : String} {ob opb flags m : Nat}
+    {input : Val} {r : Int × Int × Nat}
+    (h : divPrologue intA name errName ob opb flags m input = .ok r) :
+    LoopOk r.2.2 0 (fun m' => divPrologue intA name errName ob opb flags m' input) r := by
+  revert h
+  fun_cases divPrologue intA name errName ob opb flags m input <;> intro h <;> step_ok_core divPrologue h
+
+theorem divPrologue_mono {intA : Val → String → Except Err (Int × Nat)} {name errName : String} {ob opb flags m : Nat}
+    {input : Val} {x : Except Err (Int × Int × Nat)}
+    (h : divPrologue intA name errName ob opb flags m input = x) (hne : x ≠ .error .CostExceeded)
+    {m' : Nat} (hle : m ≤ m') : divPrologue intA name errName ob opb flags m' input = x := by
+  revert h
+  fun_cases divPrologue intA name errName ob opb flags m input <;> intro h <;> loop_mono_core divPrologue hne hle h
+
+theorem opDivWith_budget (intA : Val → String → Except Err (Int × Nat)) : OpBudget (opDivWith intA) := by
+  refine .of_loopOk fun flags m args c r h => ?_
+  revert h
+  fun_cases opDivWith intA flags m args c <;> intro h <;> op_ok_loop opDivWith (divPrologue_ok ‹_›) h
+
+theorem opDivWith_budgetErr (intA : Val → String → Except Err (Int × Nat)) : OpBudgetErr (opDivWith intA) := by
+  intro flags m m' args c e h hne hle
+  revert h
+  fun_cases opDivWith intA flags m args c <;> intro h <;> op_err_loop opDivWith (divPrologue_mono ‹_›) hne hle h
+
+theorem opModWith_budget (intA : Val → String → Except Err (Int × Nat)) : OpBudget (opModWith intA) := by
+  refine .of_loopOk fun flags m args c r h => ?_
+  revert h
+  fun_cases opModWith intA flags m args c <;> intro h <;> op_ok_loop opModWith (divPrologue_ok ‹_›) h
+
+theorem opModWith_budgetErr (intA : Val → String → Except Err (Int × Nat)) : OpBudgetErr (opModWith intA) := by
+  intro flags m m' args c e h hne hle
+  revert h
+  fun_cases opModWith intA flags m args c <;> intro h <;> op_err_loop opModWith (divPrologue_mono ‹_›) hne hle h
+
+theorem opDivmodWith_budget (intA : Val → String → Except Err (Int × Nat)) : OpBudget (opDivmodWith intA) := by
+  refine .of_loopOk fun flags m args c r h => ?_
+  revert h
+  fun_cases opDivmodWith intA flags m args c <;> intro h <;> op_ok_loop opDivmodWith (divPrologue_ok ‹_›) h
+
+theorem opDivmodWith_budgetErr (intA : Val → String → Except Err (Int × Nat)) : OpBudgetErr (opDivmodWith intA) := by
+  intro flags m m' args c e h hne hle
+  revert h
+  fun_cases opDivmodWith intA flags m args c <;> intro h <;>
+    op_err_loop opDivmodWith (divPrologue_mono ‹_›) hne hle h
+
+/-- an operator that dispatches on a flag between two operators -/
+theorem OpBudget.ite {f g : OpFn} (bit : Nat) (hf : OpBudget f) (hg : OpBudget g) :
+    OpBudget (fun flags m a c => if hasFlag flags bit then f flags m a c else g flags m a c) := by
+  intro flags m m' args c r h
+  by_cases hb : hasFlag flags bit = true
+  · simp only [hb, ↓reduceIte] at h ⊢; exact hf flags m m' args c r h
+  · simp only [hb, ↓reduceIte, Bool.false_eq_true] at h ⊢; exact hg flags m m' args c r h
+
+theorem OpBudgetErr.ite {f g : OpFn} (bit : Nat) (hf : OpBudgetErr f) (hg : OpBudgetErr g) :
+    OpBudgetErr (fun flags m a c => if hasFlag flags bit then f flags m a c else g flags m a c) := by
+  intro flags m m' args c e h hne hle
+  by_cases hb : hasFlag flags bit = true
+  · simp only [hb, ↓reduceIte] at h ⊢; exact hf flags m m' args c e h hne hle
+  · simp only [hb, ↓reduceIte, Bool.false_eq_true] at h ⊢; exact hg flags m m' args c e h hne hle
+
+theorem opDiv_budget : OpBudget opDiv := OpBudget.ite _ (opDivWith_budget _) (opDivWith_budget _)
+theorem opDiv_budgetErr : OpBudgetErr opDiv := OpBudgetErr.ite _ (opDivWith_budgetErr _) (opDivWith_budgetErr _)
+theorem opMod_budget : OpBudget opMod := OpBudget.ite _ (opModWith_budget _) (opModWith_budget _)
+theorem opMod_budgetErr : OpBudgetErr opMod := OpBudgetErr.ite _ (opModWith_budgetErr _) (opModWith_budgetErr _)
+theorem opDivmod_budget : OpBudget opDivmod := OpBudget.ite _ (opDivmodWith_budget _) (opDivmodWith_budget _)
+theorem opDivmod_budgetErr : OpBudgetErr opDivmod :=
+  OpBudgetErr.ite _ (opDivmodWith_budgetErr _) (opDivmodWith_budgetErr _)
+
+/-! ### `op_modpow` -/
+
+theorem OpBudgetErr.of_mono {f : OpFn}
+    (h : ∀ flags m m' args c x, f flags m args c = x → x ≠ .error .CostExceeded → m ≤ m' → f flags m' args c = x) :
+    OpBudgetErr f :=
+  fun flags m m' args c _ he hne hle => h flags m m' args c _ he (err_ne_ce hne) hle
+
+theorem opModpowWith_budget (intA : Val → String → Except Err (Int × Nat)) : OpBudget (opModpowWith intA) := by
+  refine .of_loopOk fun flags m args c r h => ?_
+  revert h
+  fun_cases opModpowWith intA flags m args c <;> intro h <;>
+  first
+  | (cases h; done)
+  | (loop_prep <;>
+      (cases h
+       simp only [opModpowWith, *, ↓reduceIte, Bool.false_eq_true]
+       exact (LoopOk.pure (le_mallocCost _ _)).check (Nat.zero_le _)))
+
+theorem opModpowWith_budgetErr (intA : Val → String → Except Err (Int × Nat)) : OpBudgetErr (opModpowWith intA) := by
+  refine .of_mono fun flags m m' args c x h hne hle => ?_
+  revert h
+  fun_cases opModpowWith intA flags m args c <;> intro h <;> loop_mono_core opModpowWith hne hle h
+
+theorem opModpow_budget : OpBudget opModpow := OpBudget.ite _ (opModpowWith_budget _) (opModpowWith_budget _)
+theorem opModpow_budgetErr : OpBudgetErr opModpow :=
+  OpBudgetErr.ite _ (opModpowWith_budgetErr _) (opModpowWith_budgetErr _)
+
+/-! ### `op_unknown` -/
+
+/-- `op_unknown`: is the opcode reserved -/
+def unknownReserved (op : Bytes) : Bool :=
+  match op with
+  | [] => true
+  | b0 :: b1 :: _ => b0.toNat == 0xff && b1.toNat == 0xff
+  | _ => false
+
+/-- `op_unknown`: the cost multiplier encoded in the opcode (`none` = `Invalid`) -/
+def unknownMult (op : Bytes) : Option Nat := u32FromU8 (op.take (op.length - 1))
+
+/-- `op_unknown`: the base cost computed by cost function number `k` -/
+def unknownBaseK (k : Nat) (flags : Flags) (maxCost : Nat) (args : Val) : Except Err Nat :=
+  let nm := newModel flags
+  let args := argList args
+  match k with
+  | 0 => .ok 1
+  | 1 => unknownArith nm maxCost args Gen.ARITH_BASE_COST 0
+  | 2 => unknownMul nm maxCost
+           (if nm then Gen.NEW_MUL_SQUARE_COST_PER_BYTE_DIVIDER else Gen.MUL_SQUARE_COST_PER_BYTE_DIVIDER)
+           args (if nm then Gen.NEW_MUL_BASE_COST else Gen.MUL_BASE_COST) 0 true
+  | 3 => unknownConcat maxCost args Gen.CONCAT_BASE_COST
+  | _ => .ok 1
+
+/-- `op_unknown`: the cost function number encoded in the opcode -/
+def unknownCostFunction (op : Bytes) : Nat := (((op.getLast?.map UInt8.toNat).getD 0) &&& 0xc0) >>> 6
+
+/-- `op_unknown`: the base cost -/
+def unknownBase (op : Bytes) (flags : Flags) (maxCost : Nat) (args : Val) : Except Err Nat :=
+  unknownBaseK (unknownCostFunction op) flags maxCost args
+
+/-- `op_unknown`: base cost × multiplier (wrapping in the old cost model) and the 32-bit bound -/
+def unknownFinish (flags : Flags) (cost mult : Nat) (c : Ctr) : Except Err (Nat × Val × Ctr) :=
+  let total : Except Err Nat :=
+    if newModel flags then ckMul cost (mult + 1)
+    else .ok ((cost * (mult + 1)) % 2 ^ 64)
+  match total with
+  | .error e => .error e
+  | .ok cost' =>
+    if cost' > 2 ^ 32 - 1 then .error .Invalid
+    else .ok (cost', Val.nil, c)
+
+theorem opUnknown_eq (op : Bytes) (flags maxCost : Nat) (args : Val) (c : Ctr) :
+    opUnknown op flags maxCost args c =
+    if unknownReserved op then .error .Reserved
+    else
+      match unknownMult op with
+      | none => .error .Invalid
+      | some mult =>
+        match unknownBase op flags maxCost args with
+        | .error e => .error e
+        | .ok cost =>
+          if cost == 0 then .error (.Panic "assert!(cost > 0)")
+          else
+            match checkCost cost maxCost with
+            | .error e => .error e
+            | .ok () => unknownFinish flags cost mult c := rfl
+
+theorem unknownBaseK_ok {k flags m : Nat} {args : Val} {b : Nat}
+    (h : unknownBaseK k flags m args = .ok b) : LoopOk b 0 (fun m' => unknownBaseK k flags m' args) b := by
+  match k with
+  | 0 => cases h; exact LoopOk.pure (Nat.zero_le _)
+  | 1 => exact (unknownArith_ok h).weaken (Nat.zero_le _)
+  | 2 => exact (unknownMul_ok h).weaken (Nat.zero_le _)
+  | 3 => exact (unknownConcat_ok h).weaken (Nat.zero_le _)
+  | n + 4 => cases h; exact LoopOk.pure (Nat.zero_le _)
+
+theorem unknownBaseK_mono {k flags m : Nat} {args : Val} {x : Except Err Nat}
+    (h : unknownBaseK k flags m args = x) (hne : x ≠ .error .CostExceeded) {m' : Nat} (hle : m ≤ m') :
+    unknownBaseK k flags m' args = x := by
+  match k with
+  | 0 => exact h
+  | 1 => exact unknownArith_mono h hne hle
+  | 2 => exact unknownMul_mono h hne hle
+  | 3 => exact unknownConcat_mono h hne hle
+  | n + 4 => exact h
+
+theorem unknownBase_ok {op : Bytes} {flags m : Nat} {args : Val} {b : Nat}
+    (h : unknownBase op flags m args = .ok b) : LoopOk b 0 (fun m' => unknownBase op flags m' args) b :=
+  unknownBaseK_ok h
+
+theorem unknownBase_mono {op : Bytes} {flags m : Nat} {args : Val} {x : Except Err Nat}
+    (h : unknownBase op flags m args = x) (hne : x ≠ .error .CostExceeded) {m' : Nat} (hle : m ≤ m') :
+    unknownBase op flags m' args = x :=
+  unknownBaseK_mono h hne hle
+
+/-- **`op_unknown`, general form**: after a success with base cost `base` and charged cost `r.1`, the
+outcome under another budget is the same or `CostExceeded`, and the same as soon as the budget
+covers *both* `base` and `r.1` (in the old cost model the product wraps modulo 2^64, so `r.1` alone
+is not enough: DESIGN §6-B). -/
+theorem opUnknown_budget_general (op : Bytes) (flags m : Nat) (args : Val) (c : Ctr) (r : Nat × Val × Ctr)
+    (h : opUnknown op flags m args c = .ok r) :
+    ∃ base mult, unknownBase op flags m args = .ok base ∧ unknownMult op = some mult ∧ base ≤ m ∧
+      unknownFinish flags base mult c = .ok r ∧
+      LoopOk (max base r.1) 0 (fun m' => opUnknown op flags m' args c) r := by
+  simp only [opUnknown_eq] at h ⊢
+  by_cases hres : unknownReserved op = true
+  · simp only [hres, ↓reduceIte] at h; cases h
+  · simp only [hres, ↓reduceIte, Bool.false_eq_true] at h ⊢
+    cases hm : unknownMult op with
+    | none => simp only [hm] at h; cases h
+    | some mult =>
+      simp only [hm] at h ⊢
+      cases hb : unknownBase op flags m args with
+      | error e => simp only [hb] at h; cases h
+      | ok base =>
+        simp only [hb] at h
+        by_cases hz : (base == 0) = true
+        · simp only [hz, ↓reduceIte] at h; cases h
+        · simp only [hz, ↓reduceIte, Bool.false_eq_true] at h
+          cases hc : checkCost base m with
+          | error e => simp only [hc] at h; cases h
+          | ok u =>
+            simp only [hc] at h
+            refine ⟨base, mult, rfl, rfl, checkCost_ok_iff.1 hc, h, ?_⟩
+            have hG : LoopOk (max base r.1) base
+                (fun m' => match checkCost base m' with
+                  | .error e => .error e
+                  | .ok () => unknownFinish flags base mult c) r := by
+              simp only [h]
+              exact (LoopOk.pure (Nat.le_max_left _ _)).check (Nat.le_refl _)
+            exact (unknownBase_ok hb).bind hG
+              (fun m' hm' => by simp only [hm', hz, ↓reduceIte, Bool.false_eq_true])
+              (fun m' hm' => by simp only [hm'])
+
+/-- `op_unknown`: same outcome or `CostExceeded` under any other budget (both cost models) -/
+theorem opUnknown_budget_dichotomy (op : Bytes) (flags m m' : Nat) (args : Val) (c : Ctr) (r : Nat × Val × Ctr)
+    (h : opUnknown op flags m args c = .ok r) :
+    opUnknown op flags m' args c = .ok r ∨ opUnknown op flags m' args c = .error .CostExceeded := by
+  obtain ⟨_, _, _, _, _, _, hl⟩ := opUnknown_budget_general op flags m args c r h
+  exact (hl.2 m').1
+
+/-- the product `base × (multiplier + 1)` of `op_unknown` does not wrap: always so in the new cost
+model (`checked_mul`), an explicit hypothesis in the old one (`wrapping_mul`) -/
+def UnknownNoWrap (op : Bytes) (flags m : Nat) (args : Val) : Prop :=
+  newModel flags = true ∨
+    ∀ base mult, unknownBase op flags m args = .ok base → unknownMult op = some mult →
+      base * (mult + 1) < 2 ^ 64
+
+theorem unknownFinish_le {flags base mult : Nat} {c : Ctr} {r : Nat × Val × Ctr}
+    (h : unknownFinish flags base mult c = .ok r)
+    (hw : newModel flags = true ∨ base * (mult + 1) < 2 ^ 64) : base ≤ r.1 := by
+  have hmul : base ≤ base * (mult + 1) := Nat.le_mul_of_pos_right _ (Nat.succ_pos _)
+  unfold unknownFinish at h
+  by_cases hnm : newModel flags = true
+  · simp only [hnm, ↓reduceIte] at h
+    cases hk : ckMul base (mult + 1) with
+    | error e => simp only [hk] at h; cases h
+    | ok t =>
+      simp only [hk] at h
+      split at h
+      · cases h
+      · cases h; rw [ckMul_ok hk]; exact hmul
+  · simp only [hnm, ↓reduceIte, Bool.false_eq_true] at h
+    split at h
+    · cases h
+    · cases h
+      rcases hw with hw | hw
+      · exact absurd hw hnm
+      · show base ≤ base * (mult + 1) % 2 ^ 64
+        rw [Nat.mod_eq_of_lt hw]; exact hmul
+
+/-- **C02 for `op_unknown`, outside the wrap-around of the old cost model** -/
+theorem opUnknown_budget_partial (op : Bytes) (flags m m' : Nat) (args : Val) (c : Ctr) (r : Nat × Val × Ctr)
+    (h : opUnknown op flags m args c = .ok r) (hw : UnknownNoWrap op flags m args) :
+    (opUnknown op flags m' args c = .ok r ∨ opUnknown op flags m' args c = .error .CostExceeded) ∧
+    (r.1 ≤ m' → opUnknown op flags m' args c = .ok r) := by
+  obtain ⟨base, mult, hb, hm, _, hf, hl⟩ := opUnknown_budget_general op flags m args c r h
+  refine ⟨(hl.2 m').1, fun hh => (hl.2 m').2 ?_⟩
+  have : base ≤ r.1 := unknownFinish_le hf (hw.imp id (fun hw => hw base mult hb hm))
+  exact Nat.max_le.2 ⟨Nat.le_trans this hh, hh⟩
+
+/-- `OpBudget` for `op_unknown` under the new cost model -/
+theorem opUnknown_budget_newModel (op : Bytes) (flags : Nat) (hnm : newModel flags = true)
+    (m m' : Nat) (args : Val) (c : Ctr) (r : Nat × Val × Ctr) (h : opUnknown op flags m args c = .ok r) :
+    (opUnknown op flags m' args c = .ok r ∨ opUnknown op flags m' args c = .error .CostExceeded) ∧
+    (r.1 ≤ m' → opUnknown op flags m' args c = .ok r) :=
+  opUnknown_budget_partial op flags m m' args c r h (Or.inl hnm)
+
+theorem opUnknown_budgetErr (op : Bytes) : OpBudgetErr (opUnknown op) := by
+  refine .of_mono fun flags m m' args c x h hne hle => ?_
+  simp only [opUnknown_eq] at h ⊢
+  by_cases hres : unknownReserved op = true
+  · simp only [hres, ↓reduceIte] at h ⊢; exact h
+  · simp only [hres, ↓reduceIte, Bool.false_eq_true] at h ⊢
+    cases hm : unknownMult op with
+    | none => simp only [hm] at h ⊢; exact h
+    | some mult =>
+      simp only [hm] at h ⊢
+      cases hb : unknownBase op flags m args with
+      | error e =>
+        simp only [hb] at h; subst h
+        simp only [unknownBase_mono hb (err_ne_ce (ne_ce_of_err_ne hne)) hle]
+      | ok base =>
+        simp only [hb] at h
+        simp only [unknownBase_mono hb ok_ne_ce hle]
+        by_cases hz : (base == 0) = true
+        · simp only [hz, ↓reduceIte] at h ⊢; exact h
+        · simp only [hz, ↓reduceIte, Bool.false_eq_true] at h ⊢
+          cases hc : checkCost base m with
+          | error e =>
+            simp only [hc] at h; subst h
+            exact absurd (congrArg Except.error (checkCost_err hc)) hne
+          | ok u =>
+            simp only [hc] at h
+            simp only [checkCost_mono hle hc]
+            exact h
 
 end Clvm.Interp
